@@ -23,6 +23,7 @@ import json
 import os
 import re
 import sys
+import zlib
 
 NFILES = 8
 
@@ -47,23 +48,17 @@ NOT_SINGLE = {
 # register-offset loads/stores (`if amount == 0`); add/sub immediate and extended register; move-wide; one-source FP.
 # A method that is NOT listed here (e.g. a new one) gets a theorem; if that does not check, the check reports it.
 UNPROVED = {
-    "add", "add_ext", "add_ext_w", "add_imm", "add_imm_w", "add_sh", "add_sh_w", "add_w",
-    "adds_imm", "adds_imm_w", "adds_sh", "adds_sh_w", "addv", "adr_imm", "adrp_imm", "and_imm",
-    "and_imm_w", "bfm_w", "bl_imm", "cbnz_imm", "cbnz_imm_w", "cbz_imm", "cbz_imm_w", "cmn_imm",
-    "cmn_imm_w", "cmp_ext", "cmp_ext_w", "cmp_imm", "cmp_imm_w", "cmp_sh", "cmp_sh_w", "cnt",
-    "dmb", "dmb_ish", "dmb_ishst", "fabs_d", "fabs_s", "fcvt_ds", "fcvt_sd", "fmov_d",
-    "fmov_s", "fneg_d", "fneg_s", "frinta_d", "frinta_s", "frintm_d", "frintm_s", "frintn_d",
-    "frintn_s", "frintp_d", "frintp_s", "frintz_d", "frintz_s", "fsqrt_d", "fsqrt_s", "ldar_w",
-    "ldarh", "ldaxr", "ldaxr_w", "ldp", "ldp_post", "ldp_post_w", "ldp_w", "ldr",
-    "ldr_imm_d", "ldr_imm_s", "ldr_imm_w", "ldr_imm_x", "ldr_reg", "ldr_reg_d", "ldr_reg_s", "ldr_reg_w",
-    "ldrb_imm", "ldrb_reg", "ldrh_imm", "ldrh_reg", "ldur", "ldur_d", "ldur_s", "ldur_w",
-    "ldurb", "ldurh", "lsl_imm", "lsl_imm_w", "lsr_imm_w", "mov", "mov_w", "movk",
-    "movk_w", "movn", "movn_w", "movz", "movz_w", "sbfm_w", "stlr_w", "stlrb",
-    "stp", "stp_post", "stp_post_w", "stp_pre", "stp_pre_w", "stp_w", "str_imm", "str_imm_d",
-    "str_imm_s", "str_imm_w", "str_imm_x", "str_reg", "str_reg_d", "str_reg_s", "str_reg_w", "strb_imm",
-    "strb_reg", "strh_imm", "strh_reg", "stur", "stur_d", "stur_s", "stur_w", "sturb",
-    "sturh", "sub", "sub_ext", "sub_ext_w", "sub_imm", "sub_imm_w", "sub_sh", "sub_sh_w",
-    "sub_w", "subs_ext", "subs_ext_w", "subs_imm", "subs_imm_w", "subs_sh", "subs_sh_w", "ubfm_w",
+    "add_sh", "add_sh_w", "adds_sh", "adds_sh_w", "addv", "adr_imm", "adrp_imm", "and_imm",
+    "and_imm_w", "bfm_w", "cmp_sh", "cmp_sh_w", "cnt", "fabs_d", "fabs_s", "fcvt_ds",
+    "fcvt_sd", "fmov_d", "fmov_s", "fneg_d", "fneg_s", "frinta_d", "frinta_s", "frintm_d",
+    "frintm_s", "frintn_d", "frintn_s", "frintp_d", "frintp_s", "frintz_d", "frintz_s", "fsqrt_d",
+    "fsqrt_s", "ldp", "ldp_w", "ldr", "ldr_imm_d", "ldr_imm_s", "ldr_imm_w", "ldr_imm_x",
+    "ldr_reg", "ldr_reg_d", "ldr_reg_s", "ldr_reg_w", "ldrb_imm", "ldrb_reg", "ldrh_imm", "ldrh_reg",
+    "ldur_d", "ldur_s", "lsl_imm", "lsl_imm_w", "lsr_imm_w", "mov", "mov_w", "movk",
+    "movk_w", "movn", "movn_w", "movz", "movz_w", "sbfm_w", "stp_post", "stp_post_w",
+    "stp_pre_w", "str_imm", "str_imm_d", "str_imm_s", "str_imm_w", "str_imm_x", "str_reg", "str_reg_d",
+    "str_reg_s", "str_reg_w", "strb_imm", "strb_reg", "strh_imm", "strh_reg", "stur_d", "stur_s",
+    "sub_sh", "sub_sh_w", "subs_sh", "subs_sh_w", "ubfm_w",
 }
 
 # class encoder -> decoder class (dispatch lemma `decode_<X>` and decoder function `dec<X>` of A64/Dec.lean)
@@ -99,7 +94,7 @@ def parse_cls_theorems(lean_root):
     res = {}
     d = os.path.join(lean_root, "DoraModel", "Props", "C08")
     files = [os.path.join(d, f) for f in sorted(os.listdir(d)) if f.endswith(".lean")]
-    files.append(os.path.join(lean_root, "DoraModel", "Props", "C08.lean"))
+    # `pcrel_sound`, `test_and_branch_sound` live in Props/C08.lean, which imports the generated modules: not usable here
     for p in files:
         src = open(p).read()
         for m in re.finditer(r"^theorem (\w+)_sound((?:\s*\([^)]*\))*)\s*:(.*?):= by", src, re.M | re.S):
@@ -293,8 +288,8 @@ def generate(gen_dir, report, lean_root=None, attempt_all=False):
     keep = set()
     # round-robin in source order keeps the expensive families (ldst_*, addsub_*) spread over the parts
     parts = [[] for _ in range(NFILES)]
-    for i, t in enumerate(todo):
-        parts[i % NFILES].append(t)
+    for t in todo:      # by a hash of the name: adding or removing one theorem changes one part only
+        parts[zlib.crc32(t[0].encode()) % NFILES].append(t)
     modules = []
     for k, part in enumerate(parts):
         if not part:
